@@ -1,0 +1,52 @@
+// Copyright IBM Corp. 2013, 2026
+// SPDX-License-Identifier: MPL-2.0
+
+//go:build verif
+
+package memberlist
+
+// Verification hooks, compiled in only with the build tag "verif". Every hook
+// is a no-op unless a harness installs the corresponding function variable.
+// With the tag off, verif_nohooks.go provides empty stubs with the same names.
+
+var (
+	// verifSink receives one event per hooked linearization point. It is
+	// called while the lock protecting the state in question is still held.
+	verifSink func(m *Memberlist, ev string, kv ...any)
+
+	// verifGate may block; it is only called at points where the calling
+	// goroutine holds no lock.
+	verifGate func(m *Memberlist, point string)
+
+	// verifAware receives every health score change, under the awareness lock.
+	verifAware func(a *awareness, delta, before, after int)
+)
+
+func (m *Memberlist) vt(ev string, kv ...any) {
+	if f := verifSink; f != nil {
+		f(m, ev, kv...)
+	}
+}
+
+func (m *Memberlist) vg(point string) {
+	if f := verifGate; f != nil {
+		f(m, point)
+	}
+}
+
+// vop brackets a critical section: it reports "<op>.begin" when called and
+// returns a function that reports "<op>.end".
+func (m *Memberlist) vop(op string, kv ...any) func() {
+	f := verifSink
+	if f == nil {
+		return func() {}
+	}
+	f(m, op+".begin", kv...)
+	return func() { f(m, op+".end", kv...) }
+}
+
+func (a *awareness) vt(delta, before, after int) {
+	if f := verifAware; f != nil {
+		f(a, delta, before, after)
+	}
+}
